@@ -4,8 +4,16 @@
    the two: after Engine.apply_update every process object of the table has the entry it had before, wherever it
    was registered then (front_follows_identity); the invariant "one entry per path, entries only for registered
    processes" is kept (front_apply_wf, front_apply_gone); the pinned code lost the entry of a moved process
-   (front_apply_pinned_refuted).  The side conditions on the reports are stated explicitly (reports_follow) and
-   each of them is shown to be needed by a concrete counterexample (the needs_... examples). *)
+   (front_apply_pinned_refuted).  The side conditions on the reports are stated explicitly (reports_follow: R1
+   functional_reports, R3 no_rotation, R4 steps_apart) and each of them is shown to be needed by a concrete
+   counterexample (the needs_... examples).
+
+   Repair d76c21b (take_moved without the test `old != path`): the former side condition R2 (not_in_place: nothing
+   is deleted and re-registered in place) is no longer a premise of any theorem here -- a process re-registered at
+   the very path it is deleted from keeps its entry (in_place_kept; with the code before the repair,
+   front_apply_neq, it lost it: in_place_neq_lost).  R4 lost its escape `old <> p` in exchange: a Step reported
+   among the processes AT the path its object is registered at now takes that entry too
+   (steps_apart_moved_not_enough). *)
 From Coq Require Import List NArith ZArith Bool Lia.
 From Viv Require Import Base.Assoc Base.Tree Model.Paths Model.Steps Model.Struct Model.StructC Model.Fronts
      Proofs.Struct_proofs Proofs.Consistent_proofs Proofs.Consistent2_proofs.
@@ -165,27 +173,24 @@ Variable T : Type.
 Variable procs : list (list key * N).
 Variable dels : list (list key).
 
-(* the place a reported object is moved from: registered elsewhere, and that place lies under a deletion *)
+(* the place the entry of a reported object is taken from: where the object is registered, when that place lies
+   under a deletion (whether or not it is the path of the report: repair d76c21b) *)
 Definition qualold (pp : list key * pinfo) : option (list key) :=
   match obj_path procs (pi_obj (snd pp)) with
-  | Some old => if negb (kpath_eqb old (fst pp)) && existsb (fun d => starts_with old d) dels then Some old else None
+  | Some old => if existsb (fun d => starts_with old d) dels then Some old else None
   | None => None
   end.
 
 Lemma qualold_some pp old : qualold pp = Some old ->
-  obj_path procs (pi_obj (snd pp)) = Some old /\ old <> fst pp /\ existsb (fun d => starts_with old d) dels = true.
+  obj_path procs (pi_obj (snd pp)) = Some old /\ existsb (fun d => starts_with old d) dels = true.
 Proof.
   unfold qualold. destruct (obj_path procs (pi_obj (snd pp))) as [old'|]; [|discriminate].
-  destruct (kpath_eqb_spec old' (fst pp)) as [->|Hne]; cbn [negb andb]; [discriminate|].
   destruct (existsb _ dels) eqn:E; [|discriminate]. intros H. inversion H; subst. auto.
 Qed.
 
-Lemma qualold_intro pp old : obj_path procs (pi_obj (snd pp)) = Some old -> old <> fst pp ->
+Lemma qualold_intro pp old : obj_path procs (pi_obj (snd pp)) = Some old ->
   existsb (fun d => starts_with old d) dels = true -> qualold pp = Some old.
-Proof.
-  intros H1 H2 H3. unfold qualold. rewrite H1, H3.
-  destruct (kpath_eqb_spec old (fst pp)) as [->|_]; [congruence|reflexivity].
-Qed.
+Proof. intros H1 H3. unfold qualold. rewrite H1, H3. reflexivity. Qed.
 
 Lemma take_moved_eq fr moved pp :
   take_moved T procs dels (fr, moved) pp =
@@ -198,7 +203,7 @@ Lemma take_moved_eq fr moved pp :
   end.
 Proof.
   unfold take_moved, qualold. destruct (obj_path procs (pi_obj (snd pp))); [|reflexivity].
-  destruct (negb _ && _); reflexivity.
+  destruct (existsb _ dels); reflexivity.
 Qed.
 
 Notation tm := (take_moved T procs dels).
@@ -479,8 +484,9 @@ Definition functional_reports (rp : reports) : Prop :=
   forall p pi pi', In (p, pi) (r_process rp) -> pi_step pi = false ->
                    In (p, pi') (r_process rp) -> pi_step pi' = false -> pi_obj pi = pi_obj pi'.
 
-(* R2: nothing is deleted and re-registered in place: an object reported at the path it is registered at does not
-   lie under a reported deletion (old = path is not a move; _delete_path pops its entry) *)
+(* R2 (NO LONGER A PREMISE since repair d76c21b; kept to state what the code before it needed, front_apply_neq):
+   nothing is deleted and re-registered in place: an object reported at the path it is registered at does not lie
+   under a reported deletion *)
 Definition not_in_place (b : book) (rp : reports) : Prop :=
   forall p pi, In (p, pi) (r_process rp) -> pi_step pi = false ->
     obj_path (b_procs b) (pi_obj pi) = Some p ->
@@ -496,11 +502,21 @@ Definition no_rotation (b : book) (rp : reports) : Prop :=
     exists d, In d (r_deletions rp) /\ starts_with q d = true.
 
 (* R4: a Step among the process reports does not take the entry of a process: it is no registered process
-   object, or is reported where that object is registered, or that place is under no deletion *)
+   object, or the place that object is registered at is under no deletion.  (Before repair d76c21b a Step reported
+   AT that place was harmless as well -- steps_apart_moved; now it takes the entry like any other report.) *)
 Definition steps_apart (b : book) (rp : reports) : Prop :=
+  forall p pi old, In (p, pi) (r_process rp) -> pi_step pi = true ->
+    obj_path (b_procs b) (pi_obj pi) = Some old ->
+    forall d, In d (r_deletions rp) -> starts_with old d = false.
+
+(* R4 as it was before the repair: only a Step reported elsewhere counts *)
+Definition steps_apart_moved (b : book) (rp : reports) : Prop :=
   forall p pi old, In (p, pi) (r_process rp) -> pi_step pi = true ->
     obj_path (b_procs b) (pi_obj pi) = Some old -> old <> p ->
     forall d, In d (r_deletions rp) -> starts_with old d = false.
+
+Lemma steps_apart_weaken b rp : steps_apart b rp -> steps_apart_moved b rp.
+Proof. intros H p pi old H1 H2 H3 _. apply (H p pi old H1 H2 H3). Qed.
 
 (* what implies R4: the Steps reported among the processes are no table objects *)
 Lemma steps_apart_fresh b rp :
@@ -512,17 +528,18 @@ Proof.
 Qed.
 
 (* MAIN: the schedule entry follows the process OBJECT.  After Engine.apply_update every process object in the table
-   has exactly the entry it had before (wherever it was registered then), and an object that was not in the table
-   before has none.  (Of wf_front only the two NoDup of the table are used.) *)
+   has exactly the entry it had before (wherever it was registered then -- at another path, or at the same path
+   under a deletion of this very update), and an object that was not in the table before has none.
+   (Of wf_front only the two NoDup of the table are used.) *)
 Theorem front_follows_identity_gen (b b' : book) (rp : reports) (fr : fronts T) :
   NoDup (map fst (b_procs b)) -> NoDup (map snd (b_procs b)) ->
   book_apply b rp = Ok b' ->
   NoDup (map snd (b_procs b')) ->
-  functional_reports rp -> not_in_place b rp -> no_rotation b rp -> steps_apart b rp ->
+  functional_reports rp -> no_rotation b rp -> steps_apart b rp ->
   forall o p', In (p', o) (b_procs b') ->
     entry_of T (b_procs b') (front_apply T b fr rp) o = entry_of T (b_procs b) fr o.
 Proof.
-  intros Hnf Hns Hb Hns' Hfun Hplace Hrot Hstep o p' Hin.
+  intros Hnf Hns Hb Hns' Hfun Hrot Hstep o p' Hin.
   assert (Hnf' : NoDup (map fst (b_procs b'))) by apply (book_apply_nodup b rp b' Hnf Hb).
   assert (Hfun2 : forall p pi pi', In (p, pi) (filter nonstep (r_process rp)) ->
                     In (p, pi') (filter nonstep (r_process rp)) -> pi_obj pi = pi_obj pi').
@@ -534,9 +551,9 @@ Proof.
   assert (Hsq : forall p pi, In (p, pi) (r_process rp) -> pi_step pi = true ->
                   qualold (b_procs b) (r_deletions rp) (p, pi) = None).
   { intros p pi H1 H2. destruct (qualold (b_procs b) (r_deletions rp) (p, pi)) as [old|] eqn:Eq; [|reflexivity].
-    apply qualold_some in Eq. cbn [fst snd] in Eq. destruct Eq as (E1 & E2 & E3).
+    apply qualold_some in Eq. cbn [fst snd] in Eq. destruct Eq as (E1 & E3).
     apply existsb_exists in E3. destruct E3 as (d & Hd & Hsw).
-    rewrite (Hstep p pi old H1 H2 E1 E2 d Hd) in Hsw. discriminate Hsw. }
+    rewrite (Hstep p pi old H1 H2 E1 d Hd) in Hsw. discriminate Hsw. }
   unfold entry_of at 1. rewrite (in_obj_path _ _ _ Hns' Hin).
   rewrite front_apply_eq. cbv zeta. rewrite (ph3_procs T b b' rp _ Hb).
   rewrite restore_lookup by (apply ph1_moved_nodup; constructor).
@@ -554,7 +571,7 @@ Proof.
     2:{ intros pi Hpi _. exfalso. apply Hnk. apply in_map_iff. exists (p', pi). split; [reflexivity|exact Hpi]. }
     rewrite ex_report_false by (rewrite filter_idem; exact Hnk). cbn [andb].
     rewrite flookup_drop_keep by exact Hex. apply ph1_fr_keep.
-    intros pp Hpp Eq. apply qualold_some in Eq. destruct Eq as (_ & _ & E3). rewrite Hex in E3. discriminate E3.
+    intros pp Hpp Eq. apply qualold_some in Eq. destruct Eq as (_ & E3). rewrite Hex in E3. discriminate E3.
   - (* reported at p' *)
     assert (Hall : forall pi2, In (p', pi2) (r_process rp) -> pi_step pi2 = false -> pi_obj pi2 = o).
     { intros pi2 H2 S2. rewrite Ho. apply (Hfun p' pi2 pi H2 S2 HinR Hs). }
@@ -564,24 +581,36 @@ Proof.
     { apply (ex_report_true _ p' pi); [apply in_filter_nonstep; auto|exact Hs]. }
     rewrite (reg_lookup T _ _ _ p' o HallNS), Hex3. cbn [andb].
     unfold entry_of. destruct (obj_path (b_procs b) o) as [p0|] eqn:Eo.
-    + pose proof (obj_path_in _ _ _ Eo) as Hin0. destruct (path_eq_dec p0 p') as [->|Hne].
-      * (* re-registered where it was *)
-        assert (Hnd : forall d, In d (r_deletions rp) -> starts_with p' d = false).
-        { apply (Hplace p' pi HinR Hs). rewrite <- Ho. exact Eo. }
-        assert (Hex : existsb (fun d => starts_with p' d) (r_deletions rp) = false) by (apply existsb_false_intro; exact Hnd).
-        rewrite ph1_moved_keep, flookup_nil.
-        2:{ intros [q pi2] old Hpp Hfst Eq. cbn [fst] in Hfst. subst q. destruct (pi_step pi2) eqn:Es.
-            - rewrite (Hsq _ _ Hpp Es) in Eq. discriminate Eq.
-            - apply qualold_some in Eq. cbn [fst snd] in Eq. destruct Eq as (E1 & E2 & _).
-              rewrite (Hall pi2 Hpp Es), Eo in E1. inversion E1. congruence. }
-        assert (Ht : tmatch (fold_left pdrop (r_deletions rp) (b_procs b)) p' o = true).
-        { unfold tmatch. rewrite (in_table_obj _ p' o Hnf2); [apply N.eqb_refl|]. apply pdrop_fold_in. auto. }
-        rewrite Ht. cbn [negb]. rewrite flookup_drop_keep by exact Hex. apply ph1_fr_keep.
-        intros pp Hpp Eq. apply qualold_some in Eq. destruct Eq as (_ & _ & E3). rewrite Hex in E3. discriminate E3.
-      * (* registered elsewhere before: the old place lies under a deletion *)
-        assert (Hdel : existsb (fun d => starts_with p0 d) (r_deletions rp) = true).
-        { destruct (existsb (fun d => starts_with p0 d) (r_deletions rp)) eqn:Ex; [reflexivity|exfalso].
-          pose proof (existsb_false_inv _ _ Ex) as Hnd. cbv beta in Hnd.
+    + pose proof (obj_path_in _ _ _ Eo) as Hin0.
+      destruct (existsb (fun d => starts_with p0 d) (r_deletions rp)) eqn:Hdel.
+      * (* the place it was registered at lies under a deletion -- another path (a move), or p' itself (deleted and
+           re-registered in place): the entry is carried over *)
+        destruct (flookup T fr p0) as [e|] eqn:Ee.
+        -- rewrite (ph1_moved_set T _ _ _ _ _ p0 p' e Ee); [reflexivity| |].
+           ++ intros [q pi2] old Hpp Eq. cbn [fst]. destruct (pi_step pi2) eqn:Es2; [rewrite (Hsq _ _ Hpp Es2) in Eq; discriminate Eq|].
+              apply qualold_some in Eq. cbn [fst snd] in Eq. destruct Eq as (E1 & E3). split.
+              ** intros ->. apply obj_path_in in E1.
+                 assert (Hobj : pi_obj pi2 = o) by apply (nodup_fst_functional _ _ _ _ Hnf E1 Hin0).
+                 apply (nodup_snd_functional (b_procs b') q p' o Hns'); [|exact Hin].
+                 apply Hchar. right. exists pi2. auto.
+              ** intros ->. rewrite (Hall pi2 Hpp Es2), Eo in E1. inversion E1. reflexivity.
+           ++ exists (p', pi). split; [exact HinR|]. apply qualold_intro; cbn [fst snd]; [rewrite <- Ho; exact Eo|exact Hdel].
+        -- rewrite ph1_moved_keep, flookup_nil.
+           2:{ intros [q pi2] old Hpp Hfst Eq. cbn [fst] in Hfst. subst q. destruct (pi_step pi2) eqn:Es.
+               - rewrite (Hsq _ _ Hpp Es) in Eq. discriminate Eq.
+               - apply qualold_some in Eq. cbn [fst snd] in Eq. destruct Eq as (E1 & _).
+                 rewrite (Hall pi2 Hpp Es), Eo in E1. inversion E1. subst old. exact Ee. }
+           assert (Ht : tmatch (fold_left pdrop (r_deletions rp) (b_procs b)) p' o = false).
+           { unfold tmatch. destruct (table_obj _ p') as [o'|] eqn:Et; [|reflexivity].
+             destruct (N.eqb_spec o' o) as [->|_]; [exfalso|reflexivity].
+             apply table_obj_in, pdrop_fold_in in Et. destruct Et as [Et Hcl].
+             pose proof (nodup_snd_functional (b_procs b) p0 p' o Hns Hin0 Et) as Hpp. subst p0.
+             apply existsb_exists in Hdel. destruct Hdel as (d & Hd & Hsw). rewrite (Hcl d Hd) in Hsw. discriminate Hsw. }
+           rewrite Ht. reflexivity.
+      * (* under no deletion: then it is registered where it was *)
+        pose proof (existsb_false_inv _ _ Hdel) as Hnd. cbv beta in Hnd.
+        assert (Hpp : p0 = p').
+        { destruct (path_eq_dec p0 p') as [Heq|Hne]; [exact Heq|exfalso].
           destruct (in_dec path_eq_dec p0 (map fst (filter nonstep (r_process rp)))) as [Hi|Hn].
           - apply in_map_iff in Hi. destruct Hi as ([q pi'] & Hq & Hi). cbn [fst] in Hq. subst q.
             apply in_filter_nonstep in Hi. destruct Hi as [Hi Hs'].
@@ -593,33 +622,22 @@ Proof.
               * rewrite (Hnd d Hd) in Hsw. discriminate Hsw.
           - apply Hne. apply (nodup_snd_functional (b_procs b') p0 p' o Hns'); [|exact Hin].
             apply Hchar. left. auto. }
-        destruct (flookup T fr p0) as [e|] eqn:Ee.
-        -- rewrite (ph1_moved_set T _ _ _ _ _ p0 p' e Ee); [reflexivity| |].
-           ++ intros [q pi2] old Hpp Eq. cbn [fst]. destruct (pi_step pi2) eqn:Es2; [rewrite (Hsq _ _ Hpp Es2) in Eq; discriminate Eq|].
-              apply qualold_some in Eq. cbn [fst snd] in Eq. destruct Eq as (E1 & E2 & E3). split.
-              ** intros ->. apply obj_path_in in E1.
-                 assert (Hobj : pi_obj pi2 = o) by apply (nodup_fst_functional _ _ _ _ Hnf E1 Hin0).
-                 apply (nodup_snd_functional (b_procs b') q p' o Hns'); [|exact Hin].
-                 apply Hchar. right. exists pi2. auto.
-              ** intros ->. rewrite (Hall pi2 Hpp Es2), Eo in E1. inversion E1. reflexivity.
-           ++ exists (p', pi). split; [exact HinR|]. apply qualold_intro; cbn [fst snd]; [rewrite <- Ho; exact Eo|exact Hne|exact Hdel].
-        -- rewrite ph1_moved_keep, flookup_nil.
-           2:{ intros [q pi2] old Hpp Hfst Eq. cbn [fst] in Hfst. subst q. destruct (pi_step pi2) eqn:Es.
-               - rewrite (Hsq _ _ Hpp Es) in Eq. discriminate Eq.
-               - apply qualold_some in Eq. cbn [fst snd] in Eq. destruct Eq as (E1 & _ & _).
-                 rewrite (Hall pi2 Hpp Es), Eo in E1. inversion E1. subst old. exact Ee. }
-           assert (Ht : tmatch (fold_left pdrop (r_deletions rp) (b_procs b)) p' o = false).
-           { unfold tmatch. destruct (table_obj _ p') as [o'|] eqn:Et; [|reflexivity].
-             destruct (N.eqb_spec o' o) as [->|_]; [exfalso|reflexivity].
-             apply table_obj_in, pdrop_fold_in in Et. destruct Et as [Et _].
-             apply Hne. apply (nodup_snd_functional (b_procs b) p0 p' o Hns Hin0 Et). }
-           rewrite Ht. reflexivity.
+        subst p0.
+        rewrite ph1_moved_keep, flookup_nil.
+        2:{ intros [q pi2] old Hpp Hfst Eq. cbn [fst] in Hfst. subst q. destruct (pi_step pi2) eqn:Es.
+            - rewrite (Hsq _ _ Hpp Es) in Eq. discriminate Eq.
+            - apply qualold_some in Eq. cbn [fst snd] in Eq. destruct Eq as (E1 & E3).
+              rewrite (Hall pi2 Hpp Es), Eo in E1. inversion E1. subst old. rewrite Hdel in E3. discriminate E3. }
+        assert (Ht : tmatch (fold_left pdrop (r_deletions rp) (b_procs b)) p' o = true).
+        { unfold tmatch. rewrite (in_table_obj _ p' o Hnf2); [apply N.eqb_refl|]. apply pdrop_fold_in. auto. }
+        rewrite Ht. cbn [negb]. rewrite flookup_drop_keep by exact Hdel. apply ph1_fr_keep.
+        intros pp Hpp Eq. apply qualold_some in Eq. destruct Eq as (_ & E3). rewrite Hdel in E3. discriminate E3.
     + (* a new object *)
       pose proof (obj_path_none _ _ Eo) as Hnew.
       rewrite ph1_moved_keep, flookup_nil.
       2:{ intros [q pi2] old Hpp Hfst Eq. cbn [fst] in Hfst. subst q. destruct (pi_step pi2) eqn:Es.
           - rewrite (Hsq _ _ Hpp Es) in Eq. discriminate Eq.
-          - apply qualold_some in Eq. cbn [fst snd] in Eq. destruct Eq as (E1 & _ & _).
+          - apply qualold_some in Eq. cbn [fst snd] in Eq. destruct Eq as (E1 & _).
             rewrite (Hall pi2 Hpp Es), Eo in E1. discriminate E1. }
       assert (Ht : tmatch (fold_left pdrop (r_deletions rp) (b_procs b)) p' o = false).
       { unfold tmatch. destruct (table_obj _ p') as [o'|] eqn:Et; [|reflexivity].
@@ -633,7 +651,7 @@ Theorem front_follows_identity (b b' : book) (rp : reports) (fr : fronts T) :
   wf_front (b_procs b) fr ->
   book_apply b rp = Ok b' ->
   NoDup (map snd (b_procs b')) ->
-  functional_reports rp -> not_in_place b rp -> no_rotation b rp -> steps_apart b rp ->
+  functional_reports rp -> no_rotation b rp -> steps_apart b rp ->
   forall o p', In (p', o) (b_procs b') ->
     entry_of T (b_procs b') (front_apply T b fr rp) o = entry_of T (b_procs b) fr o.
 Proof.
@@ -683,7 +701,7 @@ Qed.
 
 (* ---- along a history of updates ---- *)
 Definition reports_follow (b : book) (rp : reports) : Prop :=
-  functional_reports rp /\ not_in_place b rp /\ no_rotation b rp /\ steps_apart b rp.
+  functional_reports rp /\ no_rotation b rp /\ steps_apart b rp.
 
 Fixpoint run (b : book) (fr : fronts T) (h : list reports) : res (book * fronts T) :=
   match h with
@@ -731,10 +749,10 @@ Proof.
   induction h as [|rp h IH]; intros b fr b' fr' Hwf Hrun Hh; cbn [run hist_follows] in *.
   - inversion Hrun; subst. reflexivity.
   - destruct (book_apply b rp) as [b1|err] eqn:Hb; cbn [rbind] in Hrun; [|discriminate Hrun].
-    destruct (Hh b1 eq_refl) as (Hns1 & (R1 & R2 & R3 & R4) & Hin & Hh1).
+    destruct (Hh b1 eq_refl) as (Hns1 & (R1 & R3 & R4) & Hin & Hh1).
     rewrite (IH b1 _ b' fr' (front_apply_wf b b1 rp fr Hwf Hb Hns1) Hrun Hh1).
     apply in_map_iff in Hin. destruct Hin as ([p' o'] & Ho & Hin). cbn [snd] in Ho. subst o'.
-    apply (front_follows_identity b b1 rp fr Hwf Hb Hns1 R1 R2 R3 R4 o p' Hin).
+    apply (front_follows_identity b b1 rp fr Hwf Hb Hns1 R1 R3 R4 o p' Hin).
 Qed.
 
 End FrontsProofs.
@@ -767,11 +785,9 @@ Proof.
   split; [vm_compute; tauto|]. split; [vm_compute; tauto|].
   split; [vm_compute; reflexivity|]. split; [vm_compute; reflexivity|]. split; [vm_compute; reflexivity|].
   split; [vm_compute; repeat constructor; cbn; intuition discriminate|].
-  split; [|split; [|split]].
+  split; [|split].
   - intros p pi pi' H1 _ H2 _. vm_compute in H1, H2.
     destruct H1 as [H1|[]], H2 as [H2|[]]. inversion H1; inversion H2; subst. reflexivity.
-  - intros p pi H1 _ Ho d Hd. vm_compute in H1. destruct H1 as [H1|[]]. inversion H1; subst.
-    vm_compute in Ho. discriminate Ho.
   - intros p pi q pi' H1 _ _ _ H2 _ Hne. vm_compute in H1, H2.
     destruct H1 as [H1|[]], H2 as [H2|[]]. inversion H1; inversion H2; subst. exfalso. apply Hne. reflexivity.
   - intros p pi old H1 Hs. vm_compute in H1. destruct H1 as [H1|[]]. inversion H1; subst. discriminate Hs.
@@ -787,14 +803,19 @@ Definition treports (ps : list (list key * pinfo)) (ds : list (list key)) : repo
 Definition tproc (o : N) : pinfo := {| pi_step := false; pi_in_steps := false; pi_flow := None; pi_obj := o |}.
 Definition tstep (o : N) : pinfo := {| pi_step := true; pi_in_steps := false; pi_flow := None; pi_obj := o |}.
 
-(* the statement of front_follows_identity without one of the conditions *)
-Definition follows_without (keep1 keep2 keep3 keep4 : bool) : Prop :=
+(* the statement of front_follows_identity without one of the conditions (R2, not_in_place, is none of them any
+   more); steps_apart_moved is R4 with the escape `old <> p` it had before repair d76c21b *)
+Definition follows_without (keep1 keep3 keep4 : bool) (r4 : book -> reports -> Prop) : Prop :=
   forall (b b' : book) (rp : reports) (fr : fronts nat),
     wf_front nat (b_procs b) fr -> book_apply b rp = Ok b' -> NoDup (map snd (b_procs b')) ->
-    (if keep1 then functional_reports rp else True) -> (if keep2 then not_in_place b rp else True) ->
-    (if keep3 then no_rotation b rp else True) -> (if keep4 then steps_apart b rp else True) ->
+    (if keep1 then functional_reports rp else True) ->
+    (if keep3 then no_rotation b rp else True) -> (if keep4 then r4 b rp else True) ->
     forall o p', In (p', o) (b_procs b') ->
       entry_of nat (b_procs b') (front_apply nat b fr rp) o = entry_of nat (b_procs b) fr o.
+
+(* with all three it is front_follows_identity *)
+Lemma follows_with_all : follows_without true true true steps_apart.
+Proof. intros b b' rp fr. apply front_follows_identity. Qed.
 
 Ltac in_cases :=
   repeat match goal with
@@ -816,57 +837,122 @@ Ltac feed H :=
 
 (* R1: two reports of one path naming different objects, the first one a moved object: the second object, new,
    ends up with the entry of the first *)
-Example needs_functional_reports : ~ follows_without false true true true.
+Example needs_functional_reports : ~ follows_without false true true steps_apart.
 Proof.
   intros H.
   spec_with H (tbook [([1%N], 7%N)]) (treports [([2%N], tproc 7); ([2%N], tproc 9)] [[1%N]]) [([1%N], 5%nat)].
   feed H; [wf_small|]. feed H; [vm_compute; reflexivity|]. feed H; [nd_small|]. specialize (H I).
-  feed H. { intros p pi Hin _ Ho d Hd. rin. in_cases; vm_compute in Ho; discriminate Ho. }
   feed H. { intros p pi q pi' H1 _ Ho _ H2 _ _. rin. in_cases; vm_compute in Ho; discriminate Ho. }
   feed H. { intros p pi old H1 Hs. rin. in_cases; discriminate Hs. }
   specialize (H 9%N [2%N]). feed H; [vm_compute; tauto|]. vm_compute in H. discriminate H.
 Qed.
 
-(* R2: a process deleted and re-registered in place loses its entry *)
-Example needs_not_in_place : ~ follows_without true false true true.
-Proof.
-  intros H.
-  spec_with H (tbook [([1%N], 7%N)]) (treports [([1%N], tproc 7)] [[1%N]]) [([1%N], 5%nat)].
-  feed H; [wf_small|]. feed H; [vm_compute; reflexivity|]. feed H; [nd_small|].
-  feed H. { intros p pi pi' H1 _ H2 _. rin. in_cases; reflexivity. }
-  specialize (H I).
-  feed H. { intros p pi q pi' H1 _ Ho Hne H2 _ _. rin. in_cases. vm_compute in Ho. inversion Ho. congruence. }
-  feed H. { intros p pi old H1 Hs. rin. in_cases; discriminate Hs. }
-  specialize (H 7%N [1%N]). feed H; [vm_compute; tauto|]. vm_compute in H. discriminate H.
-Qed.
-
 (* R3: two processes exchange their paths and nothing is deleted: both lose their entries *)
-Example needs_no_rotation : ~ follows_without true true false true.
+Example needs_no_rotation : ~ follows_without true false true steps_apart.
 Proof.
   intros H.
   spec_with H (tbook [([1%N], 7%N); ([2%N], 8%N)]) (treports [([1%N], tproc 8); ([2%N], tproc 7)] [])
             [([1%N], 5%nat); ([2%N], 6%nat)].
   feed H; [wf_small|]. feed H; [vm_compute; reflexivity|]. feed H; [nd_small|].
   feed H. { intros p pi pi' H1 _ H2 _. rin. in_cases; reflexivity. }
-  feed H. { intros p pi Hin _ Ho d Hd. rin. destruct Hd. }
   specialize (H I).
   feed H. { intros p pi old H1 Hs. rin. in_cases; discriminate Hs. }
   specialize (H 7%N [2%N]). feed H; [vm_compute; tauto|]. vm_compute in H. discriminate H.
 Qed.
 
 (* R4: a Step reported among the processes with the object of a moved process takes its entry away *)
-Example needs_steps_apart : ~ follows_without true true true false.
+Example needs_steps_apart : ~ follows_without true true false steps_apart.
 Proof.
   intros H.
   spec_with H (tbook [([1%N], 7%N)]) (treports [([3%N], tstep 7); ([2%N], tproc 7)] [[1%N]]) [([1%N], 5%nat)].
   feed H; [wf_small|]. feed H; [vm_compute; reflexivity|]. feed H; [nd_small|].
   feed H. { intros p pi pi' H1 S1 H2 S2. rin. in_cases; try reflexivity; discriminate. }
-  feed H. { intros p pi Hin Hs Ho d Hd. rin. in_cases; [discriminate Hs|]. vm_compute in Ho. discriminate Ho. }
   feed H. { intros p pi q pi' H1 S1 Ho Hne H2 S2 Hobj. rin. in_cases; try discriminate;
             exfalso; apply Hobj; reflexivity. }
   specialize (H I).
   specialize (H 7%N [2%N]). feed H; [vm_compute; tauto|]. vm_compute in H. discriminate H.
 Qed.
+
+(* R4 in the form it had before repair d76c21b (steps_apart_moved: a Step reported AT the path its object is
+   registered at is let through) is not enough any more: the Step at [1] names object 7, registered at [1], which
+   is deleted; a new process 9 is registered at [1] by the same update.  The entry of 7 is taken for the Step's
+   report, put back under [1], and the new object 9 starts with the entry of the deleted one.  (With
+   front_apply_neq the report was no move and 9 started without an entry: steps_in_place_neq.) *)
+Example steps_apart_moved_not_enough : ~ follows_without true true true steps_apart_moved.
+Proof.
+  intros H.
+  spec_with H (tbook [([1%N], 7%N)]) (treports [([1%N], tstep 7); ([1%N], tproc 9)] [[1%N]]) [([1%N], 5%nat)].
+  feed H; [wf_small|]. feed H; [vm_compute; reflexivity|]. feed H; [nd_small|].
+  feed H. { intros p pi pi' H1 S1 H2 S2. rin. in_cases; try reflexivity; discriminate. }
+  feed H. { intros p pi q pi' H1 S1 Ho Hne H2 S2 Hobj. rin. in_cases; try discriminate;
+            try (vm_compute in Ho; discriminate Ho). }
+  feed H. { intros p pi old H1 Hs Ho Hne. rin. in_cases; try discriminate;
+            try (vm_compute in Ho; inversion Ho; congruence). }
+  specialize (H 9%N [1%N]). feed H; [vm_compute; tauto|]. vm_compute in H. discriminate H.
+Qed.
+
+Example steps_in_place_neq :
+  let b := tbook [([1%N], 7%N)] in
+  let rp := treports [([1%N], tstep 7); ([1%N], tproc 9)] [[1%N]] in
+  let fr : fronts nat := [([1%N], 5%nat)] in
+  exists b', book_apply b rp = Ok b' /\
+    entry_of nat (b_procs b) fr 9%N = None /\
+    entry_of nat (b_procs b') (front_apply_neq nat b fr rp) 9%N = None /\
+    entry_of nat (b_procs b') (front_apply nat b fr rp) 9%N = Some 5%nat.
+Proof. cbv zeta. eexists. split; [vm_compute; reflexivity|]. repeat split; vm_compute; reflexivity. Qed.
+
+(* ================= 5. the former R2: deleted and re-registered in place ================= *)
+(* A process deleted and re-registered in place by one update (object 7 at [1], [1] among the deletions): the
+   reports violate not_in_place and satisfy R1, R3, R4.  Since repair d76c21b the process keeps its entry -- by
+   computation, and by front_follows_identity, which has no premise about it any more; with the code before the
+   repair (front_apply_neq: `old != path`, so the report was no move and _delete_path popped the entry) it lost
+   it.  This was the example needs_not_in_place. *)
+Example in_place_kept :
+  let b := tbook [([1%N], 7%N)] in
+  let rp := treports [([1%N], tproc 7)] [[1%N]] in
+  let fr : fronts nat := [([1%N], 5%nat)] in
+  exists b', book_apply b rp = Ok b' /\ b_procs b' = b_procs b /\
+    wf_front nat (b_procs b) fr /\ NoDup (map snd (b_procs b')) /\
+    ~ not_in_place b rp /\ reports_follow b rp /\
+    entry_of nat (b_procs b) fr 7%N = Some 5%nat /\
+    entry_of nat (b_procs b') (front_apply nat b fr rp) 7%N = Some 5%nat.
+Proof.
+  cbv zeta. eexists. split; [vm_compute; reflexivity|]. split; [reflexivity|].
+  split; [wf_small|]. split; [nd_small|].
+  split.
+  { intros H. specialize (H [1%N] (tproc 7) (or_introl eq_refl) eq_refl eq_refl [1%N] (or_introl eq_refl)).
+    vm_compute in H. discriminate H. }
+  split.
+  { split; [|split].
+    - intros p pi pi' H1 _ H2 _. rin. in_cases; reflexivity.
+    - intros p pi q pi' H1 _ Ho Hne H2 _ _. rin. in_cases. vm_compute in Ho. inversion Ho. congruence.
+    - intros p pi old H1 Hs. rin. in_cases; discriminate Hs. }
+  split; vm_compute; reflexivity.
+Qed.
+
+(* ... the same by the general theorem *)
+Example in_place_kept_by_theorem :
+  let b := tbook [([1%N], 7%N)] in
+  let rp := treports [([1%N], tproc 7)] [[1%N]] in
+  forall (T : Type) (fr : fronts T) b', wf_front T (b_procs b) fr -> book_apply b rp = Ok b' ->
+    entry_of T (b_procs b') (front_apply T b fr rp) 7%N = entry_of T (b_procs b) fr 7%N.
+Proof.
+  cbv zeta. intros T fr b' Hwf Hb.
+  destruct in_place_kept as (b1 & Hb1 & _ & _ & Hnd & _ & (R1 & R3 & R4) & _). cbv zeta in *.
+  rewrite Hb in Hb1. inversion Hb1; subst b1.
+  apply (front_follows_identity T _ b' _ fr Hwf Hb Hnd R1 R3 R4 7%N [1%N]).
+  vm_compute in Hb. inversion Hb; subst. vm_compute. tauto.
+Qed.
+
+(* the code before the repair on the same update: the entry is lost *)
+Example in_place_neq_lost :
+  let b := tbook [([1%N], 7%N)] in
+  let rp := treports [([1%N], tproc 7)] [[1%N]] in
+  let fr : fronts nat := [([1%N], 5%nat)] in
+  exists b', book_apply b rp = Ok b' /\
+    entry_of nat (b_procs b) fr 7%N = Some 5%nat /\
+    entry_of nat (b_procs b') (front_apply_neq nat b fr rp) 7%N = None.
+Proof. cbv zeta. eexists. split; [vm_compute; reflexivity|]. split; vm_compute; reflexivity. Qed.
 
 Print Assumptions front_follows_identity_gen.
 Print Assumptions front_follows_identity.
@@ -878,6 +964,12 @@ Print Assumptions run_follows.
 Print Assumptions steps_apart_fresh.
 Print Assumptions front_apply_pinned_refuted.
 Print Assumptions needs_functional_reports.
-Print Assumptions needs_not_in_place.
 Print Assumptions needs_no_rotation.
 Print Assumptions needs_steps_apart.
+Print Assumptions steps_apart_weaken.
+Print Assumptions steps_apart_moved_not_enough.
+Print Assumptions steps_in_place_neq.
+Print Assumptions follows_with_all.
+Print Assumptions in_place_kept.
+Print Assumptions in_place_kept_by_theorem.
+Print Assumptions in_place_neq_lost.
